@@ -72,6 +72,85 @@ pub struct RawIdent {
 }
 proj_struct!(RawIdent { r#type, r#match, plain });
 
+#[derive(Deserr, Debug)]
+#[deserr(rename_all = lowercase)]
+pub struct LowerRaw {
+    r#type: u8,
+    Other: bool,
+    r#fn: Option<u8>,
+}
+proj_struct!(LowerRaw { r#type, Other, r#fn });
+
+#[derive(Deserr, Debug)]
+#[deserr(rename_all = camelCase)]
+pub struct CamelRaw {
+    r#match: u8,
+    two_words: bool,
+    #[deserr(rename = "r#loop")]
+    r#loop: Option<u8>,
+}
+proj_struct!(CamelRaw { r#match, two_words, r#loop });
+
+#[derive(Deserr, Debug)]
+#[deserr(rename_all = camelCase)]
+pub struct MissingRenamed {
+    #[deserr(missing_field_error = vf::missing_mf::<__Deserr_E>)]
+    first_name: String,
+    #[deserr(rename = "ID", missing_field_error = vf::missing_unexp::<__Deserr_E>)]
+    id_x: u8,
+    #[deserr(default)]
+    last_seen_at: Option<u8>,
+}
+proj_struct!(MissingRenamed { first_name, id_x, last_seen_at });
+
+#[derive(Deserr, Debug)]
+#[deserr(tag = "t")]
+pub enum VariantRules {
+    #[deserr(rename_all = camelCase)]
+    First { side_length: u8 },
+    Second { edge_count: u8, Mixed_case: bool },
+    #[deserr(rename_all = lowercase)]
+    Third { Loud_Name: u8 },
+    #[deserr(rename = "fourth_renamed")]
+    Fourth { plain_one: u8 },
+    Fifth { after_rename: u8 },
+}
+proj_enum!(VariantRules { First { side_length }, Second { edge_count, Mixed_case }, Third { Loud_Name }, Fourth { plain_one }, Fifth { after_rename } });
+
+/// wider than the insertion-sort threshold of slice sorts, with skipped fields in the middle
+#[derive(Deserr, Debug)]
+#[deserr(deny_unknown_fields)]
+pub struct Wide24 {
+    w00: u8,
+    w01: u8,
+    w02: u8,
+    #[deserr(skip)]
+    w03: u8,
+    w04: u8,
+    w05: u8,
+    w06: u8,
+    w07: u8,
+    w08: u8,
+    w09: u8,
+    w10: u8,
+    #[deserr(skip)]
+    w11: u8,
+    w12: u8,
+    w13: u8,
+    w14: u8,
+    w15: u8,
+    w16: u8,
+    #[deserr(skip)]
+    w17: u8,
+    w18: u8,
+    w19: u8,
+    w20: u8,
+    w21: u8,
+    w22: u8,
+    w23: u8,
+}
+proj_struct!(Wide24 { w00, w01, w02, w03, w04, w05, w06, w07, w08, w09, w10, w11, w12, w13, w14, w15, w16, w17, w18, w19, w20, w21, w22, w23 });
+
 // ---------------------------------------------------------------------------------- default / skip
 #[derive(Deserr, Debug)]
 pub struct Defaults {
@@ -509,6 +588,28 @@ pub fn defs() -> Defs {
     )));
     d.add(st(sdef("Lower", vec![f("userName", Ty::Str).key("username"), f("ID", u(8)).key("id"), f("other", Ty::Bool).key("KeepCase")])));
     d.add(st(sdef("RawIdent", vec![f("type", u(8)), f("match", Ty::Str), f("plain", Ty::Bool)])));
+    d.add(st(StructDef { deny: Deny::Default, ..sdef("Wide24", vec![f("w00", u(8)), f("w01", u(8)), f("w02", u(8)), f("w03", u(8)).skip(pu(0)), f("w04", u(8)), f("w05", u(8)), f("w06", u(8)), f("w07", u(8)), f("w08", u(8)), f("w09", u(8)), f("w10", u(8)), f("w11", u(8)).skip(pu(0)), f("w12", u(8)), f("w13", u(8)), f("w14", u(8)), f("w15", u(8)), f("w16", u(8)), f("w17", u(8)).skip(pu(0)), f("w18", u(8)), f("w19", u(8)), f("w20", u(8)), f("w21", u(8)), f("w22", u(8)), f("w23", u(8))]) }));
+    d.add(st(sdef("LowerRaw", vec![f("type", u(8)), f("Other", Ty::Bool).key("other"), f("fn", opt(u(8)))])));
+    d.add(st(sdef("CamelRaw", vec![f("match", u(8)), f("two_words", Ty::Bool).key("twoWords"), f("loop", opt(u(8))).key("r#loop")])));
+    d.add(st(sdef(
+        "MissingRenamed",
+        vec![
+            f("first_name", Ty::Str).key("firstName").missing("missing_mf"),
+            f("id_x", u(8)).key("ID").missing("missing_unexp"),
+            f("last_seen_at", opt(u(8))).key("lastSeenAt").default(Proj::None),
+        ],
+    )));
+    d.add(Def::Enum(edef(
+        "VariantRules",
+        "t",
+        vec![
+            vd("First", "First", Some(vec![f("side_length", u(8)).key("sideLength")])),
+            vd("Second", "Second", Some(vec![f("edge_count", u(8)), f("Mixed_case", Ty::Bool)])),
+            vd("Third", "Third", Some(vec![f("Loud_Name", u(8)).key("loud_name")])),
+            vd("Fourth", "fourth_renamed", Some(vec![f("plain_one", u(8))])),
+            vd("Fifth", "Fifth", Some(vec![f("after_rename", u(8))])),
+        ],
+    )));
     d.add(st(sdef(
         "Defaults",
         vec![
@@ -735,6 +836,11 @@ pub fn registry() -> Registry {
     r.all::<Camel>("Camel", named("Camel"), &["derive", "rename"]);
     r.all::<Lower>("Lower", named("Lower"), &["derive", "rename"]);
     r.all::<RawIdent>("RawIdent", named("RawIdent"), &["derive", "rename", "raw-ident"]);
+    r.all::<Wide24>("Wide24", named("Wide24"), &["derive", "deny", "skip", "wide"]);
+    r.all::<LowerRaw>("LowerRaw", named("LowerRaw"), &["derive", "rename", "raw-ident"]);
+    r.all::<CamelRaw>("CamelRaw", named("CamelRaw"), &["derive", "rename", "raw-ident"]);
+    r.all::<MissingRenamed>("MissingRenamed", named("MissingRenamed"), &["derive", "rename", "custom-fn"]);
+    r.all::<VariantRules>("VariantRules", named("VariantRules"), &["derive", "enum", "rename"]);
     r.all::<Defaults>("Defaults", named("Defaults"), &["derive", "default"]);
     r.all::<SkipFirst>("SkipFirst", named("SkipFirst"), &["derive", "skip"]);
     r.all::<SkipMiddle>("SkipMiddle", named("SkipMiddle"), &["derive", "skip"]);
